@@ -5,8 +5,8 @@ grids executed on the real library and judged, case by case, by independent code
 (mc.props._c08_ref: strict DER, RFC 7468/1421 PEM, RFC 8018 PBES2, legacy PEM encryption, RFC 4253
 OpenSSH lines, SEC 1 / RFC 8032 / RFC 7748 point codecs; none of it imports Crypto):
 
-  rt   for every key of the key set (RSA 512..1025 bits [thorough: ..2048], e in {3, 65537, 2^32+15};
-       DSA on the three stored domains; ECC: three keys on each of the nine curves, found by search so
+  rt   for every key of the key set (RSA 512..1025 bits [thorough: 177..4096], e in {3, 65537, 2^32+15};
+       DSA on the three stored domains [thorough: + six searched ones]; ECC: three [thorough: five] keys on each of the nine curves, found by search so
        that encodings with a leading 0x00 octet and with the top bit set both occur), private and public
        half, EVERY export configuration of the grid  format x pkcs/pkcs8/use_pkcs8 x passphrase? x
        protection (11 PBKDF2 PRFs + scrypt) x (DES-EDE3-CBC, AES128/192/256-CBC, AES128/192/256-GCM)
@@ -20,15 +20,24 @@ OpenSSH lines, SEC 1 / RFC 8032 / RFC 7748 point codecs; none of it imports Cryp
              the protection actually written is the one requested.
   eq   equality matrix: ALL ordered pairs over the key set, the public halves, independently built
        copies, near-miss variants (same n other e / other d, negated point, other x on the same DSA
-       domain) and ElGamal keys:  a == b is True iff same type, same privacy, same components;
+       domain; thorough: also the negated point on every Weierstrass curve, the Edwards point with x
+       negated, a DSA key with generator g^2 and the same p, q, y) and ElGamal keys:
+       a == b is True iff same type, same privacy, same components;
        a != b is the negation; comparing two keys of the same type never raises.
 
 Tiers.  quick: the full protection product (84 x 2 prot_params x DER/PEM) on one key per family
 (rsa1024-e65537, dsa1024-160 [84 x DER, cover list x PEM], p256-x00, ed25519-y00-xodd, curve25519-u00)
 and a covering list (every PRF, every cipher, scrypt x every cipher: 24 protections) on all other keys;
-thorough: the full product on every key, on ten primary keys also a third prot_params variant and all five
-passphrases x all 84 protections.  Combinations the documentation excludes (OpenSSH for a private RSA/DSA
-key, protection with pkcs=1, private-key parameters on an ECC public key ...) are executed and logged only.
+thorough: a larger key set (searched RSA keys whose RSAPrivateKey contents are exactly 127 | 128 | 255 | 256 octets, moduli
+of 2039/2040/3072/4096 bits; six searched DSA domains from (512, 160) to (2048, 256) with p of 127 | 128 and 255 | 256
+content octets; d = 1, d = order-1 and all-00 / all-ff seeds on the curves) and on EVERY key the full product with a third
+prot_params variant, all five other passphrases x all 84 protections, passphrases of B-1 | B | B+1 octets around the HMAC
+block size B of every KDF, legacy PEM encryption with passphrases around the MD5 block boundaries, five wrong passphrases
+instead of three, and a second import of every textual artefact from the other documented input type (str <-> bytes);
+on ten primary keys also sweeps of prot_params (iteration counts, salt sizes, scrypt N x r x p on both sides of the DER
+INTEGER / length-octet boundaries) and the documented defaults for all 84 protections.  Combinations the documentation
+excludes (OpenSSH for a private RSA/DSA key, protection with pkcs=1, private-key parameters on an ECC public key ...)
+are executed and logged only.
 
 Known defects of the pinned tree that both tiers re-find (DESIGN 5 #2, #3):
   C08/eq/DsaKey/different-keys-compare-equal                     DsaKey.__eq__ does getattr() on a dict
@@ -255,6 +264,17 @@ def ecc_cfgs(curve, priv, level):
         c += pwlen_cfgs({}, level)
         if curve in KS.WEIER:
             c += [{"format": "PEM", "use_pkcs8": False, "passphrase": pw_of_len(n)} for n in LEGACY_PWLENS]
+        # compress x use_pkcs8 x format x passphrase? (the embedded public point of a private key)
+        for comp in (True, False):
+            for up in (True, False):
+                for f in ("PEM", "DER"):
+                    for pw in (None, P0):
+                        kw = {"format": f, "use_pkcs8": up, "compress": comp}
+                        if pw is not None:
+                            kw["passphrase"] = pw
+                            if up:
+                                kw.update(protection=PW_PROTS[1], prot_params={"iteration_count": 1})
+                        c.append(kw)
     if level == "full++":
         c += sweep_cfgs({})
     return c
@@ -666,7 +686,7 @@ def rt_case(kd, priv, kw, tape, acc, size=None, deep=False):
                 enc["cipher"] if enc else None]
         for s in info["chain"]:
             acc.seen("structures", (t, s))
-        if container in ("pem", "der"):
+        if deep and container in ("pem", "der"):
             outer = der if container == "pem" else text
             acc.seen("lenform", (t, info["chain"][0], _len_form(outer)))
             clen = len(outer) - (2 if outer[1] < 0x80 else 2 + (outer[1] & 0x7F))
@@ -732,8 +752,12 @@ def rt_case(kd, priv, kw, tape, acc, size=None, deep=False):
                 if deep:
                     acc.seen("pp_ok", (e_["kdf"], e_["count"], len(e_["salt"]), e_.get("r"), e_.get("p")))
                     acc.seen("pwlen_ok", (e_["kdf"], e_["hash"], len(R.pw_bytes(pw))))
+                    if e_["cipher"].endswith("CBC") and e_.get("ptlen") is not None:
+                        bs_ = 8 if e_["cipher"].startswith("DES") else 16
+                        acc.seen("cbc_pad", ("pbes2", bs_, e_["ptlen"] % bs_))
             elif deep and peminfo["encrypted"]:
                 acc.seen("pwlen_ok", ("legacy-pem", None, len(R.pw_bytes(pw))))
+                acc.seen("cbc_pad", ("legacy-pem", 8, len(der) % 8))
             # ---- (1b) the other documented input type of a textual artefact ---------------------------
             if deep and container in ("pem", "openssh"):
                 alt_blob = text.decode("ascii") if isinstance(blob, (bytes, bytearray)) else text
@@ -789,7 +813,7 @@ def rt_case(kd, priv, kw, tape, acc, size=None, deep=False):
     if info is not None and res == "ok":
         _LAST[0] = {"part": "rt", "key": KS.kd_id(kd, priv), "export_key": {k: (short(v, 20) if isinstance(v, (bytes, bytearray)) else v) for k, v in kw.items()},
                     "output": short(text, 56), "independent_reader": {"structures": "/".join(info["chain"]), "pem_encrypted": peminfo["encrypted"],
-                                                                      "pbes2": ({k: (short(v) if isinstance(v, bytes) else v) for k, v in info["enc"].items() if k != "notes"}
+                                                                      "pbes2": ({k: (short(v) if isinstance(v, bytes) else v) for k, v in info["enc"].items() if k not in ("notes", "ptlen")}
                                                                                 if info.get("enc") else None)},
                     "import_same_passphrase": "same components", "wrong_passphrases": "refused" if protected and pw else "n/a"}
     return res
@@ -896,6 +920,9 @@ def eq_expected(a, b):
     cb = KS.expected_comps(b["kd"], b["priv"])
     if "swap" in (a["variant"], b["variant"]) and ca[:5] == cb[:5] and a["variant"] != b["variant"]:
         return None                      # same n, e, d but p and q exchanged (hence another u)
+    if ca != cb and ca[0] == "ECC" and ca[:5] == cb[:5] and ca[1] and ca[2] in KS.MONT:
+        return None                      # RFC 7748 private keys whose octets differ only in bits that clamping overwrites: the same
+                                         # scalar and the same public value; whether the stored octets are a "component" is not decided
     return ca == cb
 
 
@@ -965,7 +992,10 @@ def eq_pair(oa, ob, ka, kb, acc, size=None):
         if nev == eqv:
             acc.violation("C08/eq/%s/ne-is-not-the-negation-of-eq" % ta, "%s: a == b is %s and a != b is %s" % (desc, eqv, nev),
                           case, script=script, size=size)
-        if exp is None:
+        if exp is None and ta == "EccKey":
+            acc.observe("X25519/X448 private keys whose stored octets differ only in bits that clamping overwrites (same scalar, same public "
+                        "value, different export) compare %s" % ("equal" if eqv else "unequal"))
+        elif exp is None:
             acc.observe("RSA keys with the same n, e, d but p and q exchanged (other u) compare %s" % ("equal" if eqv else "unequal"))
         elif eqv != exp:
             if not same_type:
@@ -1039,6 +1069,43 @@ def eq_worker(rows):
 _KEYS = None
 
 
+def est_cost_ms(kd, priv, kw):
+    """rough cost of one configuration (shard balancing of the thorough tier only; no verdict depends on it)"""
+    t = kd["t"]
+    if t == "RSA":
+        base = 2 + 10 * (kd["n"].bit_length() / 1024.0) ** 2
+    elif t == "DSA":
+        base = 20 + 21 * (kd["p"].bit_length() / 1024.0) ** 2
+    else:
+        base = 2
+    if not priv:
+        return base
+    pw, prot, pp = kw.get("passphrase"), kw.get("protection"), kw.get("prot_params") or {}
+    epki = pw and (prot or (t == "DSA" and kw.get("pkcs8") is not False) or (t == "RSA" and kw.get("pkcs") == 8 and kw.get("format") == "DER"))
+    if not epki:
+        return 2 * base
+    prot = prot or DEFAULT_PROT
+    if prot.startswith("scrypt"):
+        kdf = 0.00035 * pp.get("iteration_count", 16384) * pp.get("block_size", 8) * pp.get("parallelization", 1)
+    else:
+        kdf = 0.025 * pp.get("iteration_count", 1000)         # PBES2 hands PBKDF2 a hash object: the generic HMAC loop for every PRF
+    return 3 * base + 7 * kdf
+
+
+def balanced_shards(name, kd, priv, level, kidx, target_ms=2500.0):
+    """consecutive index ranges of the configuration list with comparable estimated cost -> [(cost, shard)]"""
+    cfgs = cfgs_for(kd, priv, level)
+    out, lo, acc_ms = [], 0, 0.0
+    for i, kw in enumerate(cfgs):
+        acc_ms += est_cost_ms(kd, priv, kw)
+        if acc_ms >= target_ms or i - lo + 1 >= 96:
+            out.append((acc_ms, (name, priv, level, lo, i + 1, kidx, True)))
+            lo, acc_ms = i + 1, 0.0
+    if lo < len(cfgs):
+        out.append((acc_ms, (name, priv, level, lo, len(cfgs), kidx, True)))
+    return out
+
+
 def run(ctx):
     import time
     global _KEYS, _EQ
@@ -1054,6 +1121,10 @@ def run(ctx):
     if err:
         a.error("harness cannot reach seam: " + err)
         return
+    for h in HASHES:
+        if hashlib.new(R.HASHLIB[h]).block_size != HMAC_BLOCK[h]:
+            a.error("harness: HMAC block size table is wrong for %s" % h)
+            return
     t0 = time.time()
     _KEYS = KS.build_keys(a, q, ctx.pmap)
     if a.errors:
@@ -1064,7 +1135,9 @@ def run(ctx):
     primary = {"rsa1024-e65537", "dsa1024-160", "p256-x00", "ed25519-y00-xodd", "curve25519-u00"}
     if not q:
         primary |= {"rsa1025-e3", "dsa2048-224", "p521-y00", "ed448-y00-xodd", "curve448-u00"}
+        primary |= {"rsa4096-e3", "rsa-pkcs1len127", "p192-d1"}          # the largest and the smallest private-key blobs
     shards = []
+    weighted = []
     nconf = {}
     for kidx, (name, kd) in enumerate(_KEYS.items()):
         for priv in (True, False):
@@ -1075,20 +1148,18 @@ def run(ctx):
             nconf[(kd["t"], priv, level)] = n
             if q:
                 step = 12 if kd["t"] == "DSA" else 24
+                for lo in range(0, n, step):
+                    shards.append((name, priv, level, lo, lo + step, kidx))
             else:
-                bits = kd["p"].bit_length() if kd["t"] == "DSA" else kd["n"].bit_length() if kd["t"] == "RSA" else 0
-                step = (6 if bits > 2048 else 8 if bits > 1024 else 12) if kd["t"] == "DSA" else \
-                       (8 if bits > 2048 else 16 if bits >= 2039 else 24 if kd["t"] == "RSA" else 48)
-            for lo in range(0, n, step):
-                shards.append((name, priv, level, lo, lo + step, kidx) + (() if q else (True,)))
+                weighted += balanced_shards(name, kd, priv, level, kidx)
     # heavy shards first
     if q:
         shards.sort(key=lambda s: (0 if _KEYS[s[0]]["t"] == "DSA" else 1))
     else:
-        def weight(s):
-            kd = _KEYS[s[0]]
-            return -(kd["p"].bit_length() * 2 if kd["t"] == "DSA" else kd["n"].bit_length() if kd["t"] == "RSA" else 256)
-        shards.sort(key=weight)
+        weighted.sort(key=lambda w: -w[0])
+        shards = [w[1] for w in weighted]
+        ctx.coverage_extra["rt_shards"] = {"count": len(shards), "estimated_cost_s_max": round(weighted[0][0] / 1000.0, 1),
+                                           "estimated_cost_s_total": round(sum(w[0] for w in weighted) / 1000.0)}
     t0 = time.time()
     ctx.pmap(rt_worker, shards)
     phases["rt"] = round(time.time() - t0, 1)
@@ -1140,6 +1211,40 @@ def run(ctx):
     rels = {c[3] for c in cl if c[0] == "eq"}
     ctx.require({"same", "different", "privacy", "cross-type", "either"} <= rels, "equality relations seen: %s" % sorted(rels))
     ctx.require(len(cl) >= 300, "fewer than 300 behaviour classes observed (%d)" % len(cl))
+    if not q:
+        # the dimensions only the thorough tier has
+        ctx.require(n.get("artefacts", 0) >= 60000 and n.get("wrong_pw_attempts", 0) >= 250000,
+                    "thorough: %d artefacts, %d wrong-passphrase attempts" % (n.get("artefacts", 0), n.get("wrong_pw_attempts", 0)))
+        lf = d.get("lenform", set())
+        for need in (("RSA", "pkcs1", "short"), ("RSA", "pkcs1", "0x81"), ("RSA", "pkcs1", "0x82"), ("RSA", "spki", "short"), ("RSA", "spki", "0x81"),
+                     ("RSA", "spki", "0x82"), ("DSA", "spki", "0x81"), ("DSA", "spki", "0x82"), ("ECC", "spki", "short"), ("ECC", "spki", "0x81"),
+                     ("ECC", "ecpriv", "short"), ("ECC", "ecpriv", "0x81"), ("RSA", "epki", "0x81"), ("RSA", "epki", "0x82")):
+            ctx.require(need in lf, "outermost length form %s/%s/%s never produced" % need)
+        ctx.require(d.get("pkcs1_boundary", set()) == {127, 128, 255, 256},
+                    "RSAPrivateKey contents of exactly 127, 128, 255, 256 octets: saw %s" % sorted(d.get("pkcs1_boundary", ())))
+        ps = d.get("pem_shape", set())
+        ctx.require({x[0] for x in ps} == {0, 1, 2} and any(x[1] for x in ps), "PEM bodies: DER length mod 3 classes / a full last line not all seen")
+        at = d.get("alt_type", set())
+        for t_ in ("RSA", "DSA", "ECC"):
+            ctx.require(any(x[0] == t_ and x[1] == "pem" for x in at) and any(x[0] == t_ and x[1] == "openssh" for x in at),
+                        "%s: PEM / OpenSSH text never imported from the other input type" % t_)
+        ctx.require(n.get("alt_type_ok", 0) >= 15000, "imports from the other input type: %d" % n.get("alt_type_ok", 0))
+        ppo = d.get("pp_ok", set())
+        want_pp = {("pbkdf2", c_, 8, None, None) for c_ in SWEEP_COUNTS + (1, 2, 1000)} | \
+                  {("pbkdf2", 2, s_, None, None) for s_ in SWEEP_SALTS + (8, 16)} | {("scrypt", 2, s_, 8, 1) for s_ in SWEEP_SALTS + (8,)} | \
+                  {("scrypt", n_, 8, r_, p_) for n_ in SWEEP_SCRYPT_N for r_ in SWEEP_SCRYPT_R for p_ in SWEEP_SCRYPT_P} | \
+                  {("scrypt", n_, 8, r_, 1) for n_, r_ in SWEEP_SCRYPT_BIGN} | {("scrypt", 16384, 8, 8, 1), ("scrypt", 4, 16, 1, 2)}
+        ctx.require(want_pp <= ppo, "prot_params values never round-tripped: %s" % sorted(want_pp - ppo, key=str)[:4])
+        pwl = d.get("pwlen_ok", set())
+        want_pwl = {("pbkdf2", h, HMAC_BLOCK[h] + k_) for h in HASHES for k_ in (-1, 0, 1)} | {("scrypt", None, 64 + k_) for k_ in (-1, 0, 1)} | \
+                   {("legacy-pem", None, l_) for l_ in LEGACY_PWLENS}
+        ctx.require(want_pwl <= pwl, "passphrase lengths never round-tripped: %s" % sorted(want_pwl - pwl, key=str)[:4])
+        cp = d.get("cbc_pad", set())
+        for kind, bs_, need_n in (("pbes2", 16, 12), ("pbes2", 8, 8), ("legacy-pem", 8, 8)):
+            got_r = {x[2] for x in cp if x[:2] == (kind, bs_)}
+            ctx.require(0 in got_r and len(got_r) >= need_n, "CBC plaintext lengths mod %d (%s): only residues %s seen" % (bs_, kind, sorted(got_r)))
+        for nm in ("dsa2048-256", "dsa1015-160", "dsa1016-160", "rsa4096-e3", "rsa3072-e65537", "p521-dmax", "ed448-seedff", "curve25519-seed00"):
+            ctx.require(nm in _KEYS, "key %s missing from the thorough key set" % nm)
     ctx.coverage_extra.update({
         "evaluations": n.get("evaluations", 0),
         "distinct_nontrivial": len(cl),
@@ -1151,12 +1256,42 @@ def run(ctx):
             "configurations_per_key": {"%s %s [%s]" % (k[0], "private" if k[1] else "public", k[2]): v for k, v in sorted(nconf.items(), key=str)},
             "levels": ("quick: full product (84 protections x 2 prot_params x DER/PEM) on %s (DSA: 84 protections x DER, cover list x PEM), "
                        "cover list on the other keys (4 protections on the 2048/3072-bit DSA keys)" % ", ".join(sorted(primary))) if q else
-                      ("thorough: full product (84 protections x 2 prot_params x DER/PEM) on every key; on %s in addition a third prot_params "
-                       "variant (16-byte salt; scrypt r=1, p=2) and all 5 passphrases x all 84 protections; cover list on 2048-bit RSA"
-                       % ", ".join(sorted(primary))),
+                      ("thorough: on EVERY key (%d keys, all RSA sizes up to 4096 included) the full product 84 protections x 3 prot_params "
+                       "variants (third: 16-byte salt; scrypt N=4, r=1, p=2) x DER/PEM (DSA: DsaKey.export_key has no prot_params, 84 protections "
+                       "x DER/PEM with the defaults), all 5 other passphrases x all 84 protections (DSA: x the 77 PBKDF2 protections + 1 scrypt), "
+                       "the passphrase-length grid, the legacy-PEM passphrase-length grid and (ECC) compress x use_pkcs8 x format x passphrase?; "
+                       "on %s (RSA/ECC) in addition the prot_params sweeps and the documented defaults (no prot_params) for all 84 protections "
+                       "x DER/PEM" % (len(_KEYS), ", ".join(sorted(primary)))),
             "passphrases": [short(p, 20) if not isinstance(p, str) else p for p in PWS],
-            "wrong_passphrases": "passphrase + 'x', passphrase without its last octet, none",
+            "wrong_passphrases": "passphrase + 'x', passphrase without its last octet, none" +
+                                 ("" if q else ", lowest bit of the first octet flipped, top bit of the last octet flipped"),
             "equality_objects": nrows, "equality_pairs": nrows * nrows,
+        },
+        "thorough_only_dimensions": {
+            "keys_added": "RSA: RSAPrivateKey contents of exactly %s octets (searched), moduli of 2039/2040 bits (255 | 256 content octets), 3072 and "
+                          "4096 bits; DSA: searched domains (L, N, top octet of p) %s; ECC: d = 1 and d = order-1 on the five Weierstrass curves, "
+                          "all-00 and all-ff seeds on Ed25519/Ed448/Curve25519/Curve448" % (list(KS.RSA_SEQLEN_DEEP), [list(x) for x in KS.DSA_DOMAINS_DEEP]),
+            "passphrase_lengths": "B-1, B, B+1 octets around the HMAC block size B of each of the 11 PBKDF2 PRFs and of scrypt (PBKDF2-HMAC-SHA256) "
+                                  "x ciphers %s: %d configurations per private key; legacy PEM encryption (MD5 based) with passphrases of %s octets"
+                                  % (list(PWLEN_CIPHERS), len(pwlen_cfgs({}, "full+")), list(LEGACY_PWLENS)),
+            "prot_params_sweeps": {"pbkdf2_iteration_count": {"values": list(SWEEP_COUNTS), "protections": list(SWEEP_PBKDF2_BIG),
+                                                                "values_up_to_256_only": list(SWEEP_COUNTS_SMALL),
+                                                                "protections_for_values_up_to_256": list(SWEEP_PBKDF2_SMALL)},
+                                   "salt_size": {"values": list(SWEEP_SALTS), "protections": list(SWEEP_PBKDF2_BIG + SWEEP_PBKDF2_SMALL + SWEEP_SCRYPT)},
+                                   "scrypt": {"N": list(SWEEP_SCRYPT_N), "r": list(SWEEP_SCRYPT_R), "p": list(SWEEP_SCRYPT_P), "product": "complete",
+                                              "big_N_r": [list(x) for x in SWEEP_SCRYPT_BIGN], "protections": list(SWEEP_SCRYPT)},
+                                   "defaults": "no prot_params: all 84 protections x DER/PEM; the written parameters must be the documented defaults",
+                                   "configurations_per_primary_private_key": len(sweep_cfgs({}))},
+            "import_input_types": "every PEM / OpenSSH artefact is imported a second time from the other documented input type (str <-> bytes): "
+                                  "%d imports, %d with the same components" % (n.get("alt_type_imports", 0), n.get("alt_type_ok", 0)),
+            "outermost_length_forms_seen": sorted("%s/%s/%s" % x for x in d.get("lenform", ())),
+            "pkcs1_boundary_contents_seen": sorted(d.get("pkcs1_boundary", ())),
+            "cbc_plaintext_length_residues_seen": {"%s/mod%d" % (k_, b_): sorted(x[2] for x in d.get("cbc_pad", ()) if x[:2] == (k_, b_))
+                                                   for k_, b_ in (("pbes2", 16), ("pbes2", 8), ("legacy-pem", 8))},
+            "prot_params_tuples_roundtripped": len(d.get("pp_ok", ())),
+            "kdf_prf_passphrase_length_triples_roundtripped": len(d.get("pwlen_ok", ())),
+            "equality_near_misses_added": "negated point on P-192/P-224/P-384, Edwards point with x negated (public), DSA key with generator g^2 "
+                                          "(same p, q, y) on dsa1024-160 and dsa2048-256",
         },
         "verdicts": {k: n.get(k, 0) for k in ("artefacts", "roundtrip_ok", "refused_documented", "refused_unsupported", "unsupported_accepted",
                                               "wrong_pw_attempts", "wrong_pw_refused", "wrong_pw_refused_gcm", "no_pw_refused", "eq_true", "eq_false",
@@ -1166,12 +1301,26 @@ def run(ctx):
         "protections_missing_roundtrip": sorted(missing, key=str)[:6],
         "integer_shapes_seen": len(ish),
     })
-    ctx.assume("key values: the stored 1024/1025-bit RSA fixtures (thorough: up to 2048), two searched small RSA keys, DSA keys on the "
-               "three stored domains, three keys per curve; other key values are covered only through these shapes")
-    ctx.assume("prot_params values: iteration_count 1, 2 (and the default 1000) for PBKDF2, N in {2, 16} (and the default 16384) "
-               "for scrypt, salt_size 8/16, r in {8, 1}, p in {1, 2}")
-    ctx.assume("passphrases: six values (2-octet, ASCII text, binary with NUL/0xFF/newline, 150 octets, 1 octet, text with characters "
-               "in U+0080..U+00FF); the independent reader maps text to octets as ISO 8859-1 (the library's documented convention)")
+    if q:
+        del ctx.coverage_extra["thorough_only_dimensions"]
+    if q:
+        ctx.assume("key values: the stored 1024/1025-bit RSA fixtures (thorough: up to 2048), two searched small RSA keys, DSA keys on the "
+                   "three stored domains, three keys per curve; other key values are covered only through these shapes")
+        ctx.assume("prot_params values: iteration_count 1, 2 (and the default 1000) for PBKDF2, N in {2, 16} (and the default 16384) "
+                   "for scrypt, salt_size 8/16, r in {8, 1}, p in {1, 2}")
+        ctx.assume("passphrases: six values (2-octet, ASCII text, binary with NUL/0xFF/newline, 150 octets, 1 octet, text with characters "
+                   "in U+0080..U+00FF); the independent reader maps text to octets as ISO 8859-1 (the library's documented convention)")
+    else:
+        ctx.assume("key values: the stored RSA fixtures (1024..2048 bits), searched RSA keys (177..4096 bits, chosen for their leading octets and "
+                   "DER lengths), DSA keys on the three stored and six searched domains (512..3072 bits), five keys per curve; other key values "
+                   "are covered only through these shapes")
+        ctx.assume("prot_params values: the grid values (iteration_count 1, 2, default 1000; scrypt N 2, 4, 16, default 16384; salt 8/16; r 8/1; "
+                   "p 1/2) on every key, the sweep values listed under thorough_only_dimensions on the primary keys only; DsaKey.export_key "
+                   "has no prot_params, DSA keys always use the defaults")
+        ctx.assume("passphrases: six fixed values (2-octet, ASCII text, binary with NUL/0xFF/newline, 150 octets, 1 octet, text with characters "
+                   "in U+0080..U+00FF) plus printable passphrases of the boundary lengths listed under thorough_only_dimensions; no passphrase "
+                   "ends in a NUL octet (HMAC pads keys with NUL, so such a passphrase and its truncation are the same PBKDF2 key by "
+                   "construction); the independent reader maps text to octets as ISO 8859-1 (the library's documented convention)")
     ctx.assume("PBES1 containers, OpenSSH private keys and X.509 certificates are import-only formats (the library cannot export them) "
                "and are outside this check")
     ctx.assume("entropy for salts/IVs comes from deterministic tapes (randfunc=, and the seam Crypto.IO._PBES.Random where "
